@@ -8,7 +8,9 @@ namespace Libconfig
 /-- `libconfig_format_double(val, precision, sci_ok, buf, buflen)` -/
 def formatDouble (bufLen : Nat) (b : Nat) (precision : Nat) (sci : Bool) : Bytes :=
   -- snprintf(buf, buflen - 3, ...) keeps at most buflen - 4 characters
-  let raw := if sci then F64.fmtG b precision else F64.fmtF b precision
+  let raw0 := if sci then F64.fmtG b precision else F64.fmtF b precision
+  -- a finite value whose low-precision %g rendering is out of range is re-rendered with 17 digits
+  let raw := if sci && F64.isFinite b && F64.isInf (F64.strtod (raw0.take (bufLen - 4))) then F64.fmtG b 17 else raw0
   let s := raw.take (bufLen - 4)
   if s.contains 101 then s
   else if !s.contains 46 then s ++ [46, 48]
